@@ -127,6 +127,6 @@ pub fn check(c: &(M, Vec<u16>), obs: &mut Obs) -> Result<(), String> {
 
 fn run(ctx: &mut Ctx) {
     let cases = ctx.share(ctx.tier.pick(400_000, 4_000_000));
-    let p = ctx.tier.pick(TreeParams::quick(), TreeParams::thorough()).finite();
+    let p = ctx.tier.pick(TreeParams::quick(), TreeParams::thorough()).finite().with_big(2);
     run_strategy(ctx, "C19", "trees", cases, (arb_doc(p), vec(any::<u16>(), 1..5)), check);
 }
